@@ -1,5 +1,10 @@
 """C07 -- regularization matrices: symmetric, PSD/PD, stated quadratic form; block assembly in order."""
-import itertools
+import itertools, sys, types
+if "pylops" not in sys.modules:          # stand-in (pylops is not installed): lets Interferometer / TransformerDFT be built (phase 4: interferometer inversions)
+    _p = types.ModuleType("pylops")
+    _p.LinearOperator = type("LinearOperator", (object,), {"__init__": lambda self, *a, **k: None})
+    _p.Diagonal = None
+    sys.modules["pylops"] = _p
 import numpy as np
 from fractions import Fraction
 from harness.common import cz, cq, cnat, cbool, clist, ctup, cres, import_aa, frac, exn_name
@@ -46,7 +51,29 @@ RULE = ("mock mappers over random symmetric multigraph neighbour arrays (rings, 
         "comparisons RELATIVE to the scale of the entry (sqrt(H_aa H_bb)); PIXEL SIGNALS: mapper.pixel_signals_from on every real mapper "
         "whose scheme reads signals and mapper_util.adaptive_pixel_signals_from directly (single-vertex and interpolated rows, padded rows, "
         "pixels nobody maps to, powers 0..3, zeros / ties / 2^-34 data, out-of-range index / size / slim -> exception) against the model (case "
-        "KSignals). Non-trivial = at least 3 parameters and 2 neighbour pairs / cross rows (high-degree meshes: a vertex of degree > 20); "
+        "KSignals). PHASE 4 (pre-emptive hardening): (f) INPUT KINDS -- every scheme on objects of 1..4 parameters with the coefficients given as "
+        "Python ints / numpy.int64 / numpy.float32 / numpy.float64 / 0-d arrays, the signals as int64 / bool / float32 arrays, the neighbour and "
+        "split-cross arrays as int8 / int32 arrays, Fortran-ordered arrays and non-contiguous views into larger buffers, through the class, "
+        "LinearObj.regularization_matrix and the util functions: every observation bit-equal to the float64 one (all values few-bit dyadic, so "
+        "float32 arithmetic is exact), a differing one goes to Coq; SUBCLASS instances of every scheme class, of MockMapper / MapperRectangular / "
+        "MapperDelaunay, of Mesh2DRectangular / Mesh2DDelaunay (the Mapper factory must still build the right mapper), of mesh.Rectangular / "
+        "mesh.Delaunay; Delaunay vertices as Grid2DIrregular / Grid2DIrregularUniform / ndarray / list; integer- and float32-typed adapt images, "
+        "data of shape 1 x 5 / 5 x 1; shape_native as list / ndarray / numpy ints; pixel-signal util with integer data, int8 / int32 indexes, float32 "
+        "weights, views; real inversions on a SINGLE unmasked pixel / two pixels; (g) the shared DEFAULT-ARGUMENT objects of every callable on the "
+        "route (SettingsInversion(), Preloads(), OverSamplingDataset() of aa.Inversion, the factories, the six inversion classes, "
+        "mesh.*.mapper_grids_from, Imaging, Interferometer) and one caller-owned settings / preloads pair fingerprinted before / after; SEQUENCES of "
+        "2-3 DIFFERENT inversions in one process through those shared objects (imaging and INTERFEROMETER datasets -- real and imaginary noise "
+        "differing --, no regularized object at all, then the first one again), each against the block assembly of what fresh objects return, the "
+        "caller's list of linear objects left alone; the public mesh-class route mesh.Rectangular / mesh.Delaunay .mapper_grids_from -> Mapper "
+        "factory against the direct route; (a) sequences through module-level functions: rectangular_neighbors_from for the transposed shape, a "
+        "shape with the same pixel count, the same first / second dimension, then this shape again (also through Mesh2DRectangular.neighbors); one "
+        "kernel scheme object on two point sets of the same size and on the first again, scale / coefficient edited in place, the sibling kernel on "
+        "the same points (case KCov + KKernel per observation); one real mapper asked for ANOTHER signal scale and the scheme's signal_scale edited "
+        "in place, against a fresh mapper; the pixel-signal util on a second data image; two Delaunay meshes of the same vertex count in one process, "
+        "both neighbour tables against their triangulations; the attached scheme's coefficients edited in place / detached (regularization = None); "
+        "(d) every util function's array arguments compared with copies after the call (reg_split_from works in place by design); sibling mesh: "
+        "Mesh2DVoronoi / MapperVoronoi with Constant / ConstantZeroth / Zeroth, the neighbour table against voronoi.ridge_points. "
+        "Non-trivial = at least 3 parameters and 2 neighbour pairs / cross rows (high-degree meshes: a vertex of degree > 20); "
         "distinct = distinct JSON input.")
 EXHAUSTIVE = {"quick": "rectangular_neighbors_from: all shapes 1..8 x 1..8", "thorough": "rectangular_neighbors_from: all shapes 1..12 x 1..12"}
 TRUSTED = ["hand-written Gallina model coq/Model/C07.v (update lists in the code's loop order + scatter), tied to /repo by this "
@@ -239,6 +266,9 @@ def gen_inputs0(tier, rng):
     # P. phase 3: high-degree Delaunay meshes, read-order histories on ONE inversion, reuse histories, pixel signals, scales
     for inp in phase3_inputs(rng, big):
         yield inp
+    # Q. phase 4: input kinds, subclass instances, shared default objects / sequences of inversions, sibling classes and routes
+    for inp in phase4_inputs(rng, big):
+        yield inp
 
 FUNC_SCHEMES = ["Constant", "ConstantZeroth", "Zeroth"]
 KERNELS = ["GaussianKernel", "ExponentialKernel"]
@@ -320,16 +350,28 @@ def split_small(rng, n, width):
     return smap, ssz, sw
 
 # ------------------------------------------------------------------ implementation side
-def make_reg(aa, s):
-    p = [float(Fraction(x)) for x in s["par"]]
+_SUB = {}
+def subcls(c):
+    """a trivial user subclass of a library class (dispatch must go through isinstance, never type(x) is C)"""
+    if c not in _SUB: _SUB[c] = type("Sub" + c.__name__, (c,), {})
+    return _SUB[c]
+
+COEF_KINDS = {"float": float, "pyint": lambda v: int(v), "npint": lambda v: np.int64(int(v)), "f32": lambda v: np.float32(v),
+              "arr0": lambda v: np.array(float(v)), "npf64": lambda v: np.float64(v)}
+def make_reg(aa, s, sub=False, ckind="float", ss_int=False):
+    cv = COEF_KINDS[ckind]
+    p = [cv(float(Fraction(x))) for x in s["par"]]
     n = s["name"]
-    if n == "Constant": return aa.reg.Constant(coefficient=p[0])
-    if n == "ConstantZeroth": return aa.reg.ConstantZeroth(coefficient_neighbor=p[0], coefficient_zeroth=p[1])
-    if n == "Zeroth": return aa.reg.Zeroth(coefficient=p[0])
-    if n == "AdaptiveBrightness": return aa.reg.AdaptiveBrightness(inner_coefficient=p[0], outer_coefficient=p[1], signal_scale=float(s.get("signal_scale", 1)))
-    if n == "BrightnessZeroth": return aa.reg.BrightnessZeroth(coefficient=p[0], signal_scale=float(s.get("signal_scale", 1)))
-    if n == "ConstantSplit": return aa.reg.ConstantSplit(coefficient=p[0])
-    if n == "AdaptiveBrightnessSplit": return aa.reg.AdaptiveBrightnessSplit(inner_coefficient=p[0], outer_coefficient=p[1], signal_scale=float(s.get("signal_scale", 1)))
+    K = (lambda c: subcls(c)) if sub else (lambda c: c)
+    ss = s.get("signal_scale", 1)
+    ss = int(ss) if ss_int else float(ss)
+    if n == "Constant": return K(aa.reg.Constant)(coefficient=p[0])
+    if n == "ConstantZeroth": return K(aa.reg.ConstantZeroth)(coefficient_neighbor=p[0], coefficient_zeroth=p[1])
+    if n == "Zeroth": return K(aa.reg.Zeroth)(coefficient=p[0])
+    if n == "AdaptiveBrightness": return K(aa.reg.AdaptiveBrightness)(inner_coefficient=p[0], outer_coefficient=p[1], signal_scale=ss)
+    if n == "BrightnessZeroth": return K(aa.reg.BrightnessZeroth)(coefficient=p[0], signal_scale=ss)
+    if n == "ConstantSplit": return K(aa.reg.ConstantSplit)(coefficient=p[0])
+    if n == "AdaptiveBrightnessSplit": return K(aa.reg.AdaptiveBrightnessSplit)(inner_coefficient=p[0], outer_coefficient=p[1], signal_scale=ss)
     raise ValueError(n)
 
 def fo(o):
@@ -337,49 +379,86 @@ def fo(o):
     return {"params": o["params"], "nb": o["nb"], "sizes": o["sizes"], "signals": [Fraction(x) for x in o["signals"]],
             "smap": o["smap"], "ssizes": o["ssizes"], "sw": [[Fraction(x) for x in r] for r in o["sw"]]}
 
-def split_arrays(o):
-    w = len(o["sw"][0]) if o["sw"] else 0
-    return (np.array(o["smap"], dtype=int).reshape((len(o["smap"]), w)), np.array(o["ssizes"], dtype=int),
-            np.array([[float(Fraction(x)) for x in r] for r in o["sw"]], dtype=float).reshape((len(o["sw"]), w)))
+def conv_arr(a, dtype=None, layout="C"):
+    """the same values as another KIND of array: dtype, Fortran order, or a non-contiguous view into a larger buffer"""
+    a = np.asarray(a)
+    if dtype is not None: a = a.astype(dtype)
+    if layout == "F": return np.asfortranarray(a)
+    if layout == "view":
+        if a.ndim == 1:
+            big = np.zeros(2 * len(a) + 1, dtype=a.dtype); big[1::2] = a; return big[1::2]
+        big = np.zeros((a.shape[0] + 2, 2 * a.shape[1] + 1), dtype=a.dtype); big[1:-1, 1::2] = a; return big[1:-1, 1::2]
+    return a
 
-def mock_mapper(aa, o, reg=None):
-    from autoarray.inversion.pixelization.mappers.abstract import PixSubWeights
+def split_arrays(o, ak=None):
+    ak = ak or {}
+    w = len(o["sw"][0]) if o["sw"] else 0
+    lay = ak.get("layout", "C")
+    return (conv_arr(np.array(o["smap"], dtype=int).reshape((len(o["smap"]), w)), ak.get("int"), lay),
+            conv_arr(np.array(o["ssizes"], dtype=int), ak.get("int"), lay),
+            conv_arr(np.array([[float(Fraction(x)) for x in r] for r in o["sw"]], dtype=float).reshape((len(o["sw"]), w)), ak.get("float"), lay))
+
+def nb_arrays(o, ak=None):
+    ak = ak or {}
     nbw = len(o["nb"][0]) if o["nb"] else 0
-    nb = np.array(o["nb"], dtype=int).reshape((len(o["nb"]), nbw))
-    mesh = aa.m.MockMeshGrid(neighbors=nb, neighbors_sizes=np.array(o["sizes"], dtype=int))
-    m, z, w = split_arrays(o)     # fresh arrays: reg_split_from works in place
-    return aa.m.MockMapper(source_plane_mesh_grid=mesh, parameters=o["params"],
-                           pixel_signals=np.array([float(Fraction(x)) for x in o["signals"]]),
-                           pix_sub_weights_split_cross=PixSubWeights(mappings=m, sizes=z, weights=w), regularization=reg)
+    lay = ak.get("layout", "C")
+    return (conv_arr(np.array(o["nb"], dtype=int).reshape((len(o["nb"]), nbw)), ak.get("int"), lay),
+            conv_arr(np.array(o["sizes"], dtype=int), ak.get("int"), lay))
+
+def sig_array(o, ak=None):
+    ak = ak or {}
+    return conv_arr(np.array([float(Fraction(x)) for x in o["signals"]]), ak.get("sig", ak.get("float")), ak.get("layout", "C"))
+
+def mock_mapper(aa, o, reg=None, ak=None, sub=False):
+    from autoarray.inversion.pixelization.mappers.abstract import PixSubWeights
+    nb, sz = nb_arrays(o, ak)
+    mesh = aa.m.MockMeshGrid(neighbors=nb, neighbors_sizes=sz)
+    m, z, w = split_arrays(o, ak)     # fresh arrays: reg_split_from works in place
+    cls = subcls(aa.m.MockMapper) if sub else aa.m.MockMapper
+    return cls(source_plane_mesh_grid=mesh, parameters=o["params"], pixel_signals=sig_array(o, ak),
+               pix_sub_weights_split_cross=PixSubWeights(mappings=m, sizes=z, weights=w), regularization=reg)
 
 def call(f):
     try: return ("ok", mat_out(f()))
     except Exception as e: return ("raise", exn_name(e))
 
-def util_call(aa, s, o):
+def util_call(aa, s, o, ak=None, ckind="float", intact=None):
+    """the util-layer route; intact (a list) receives the names of caller-owned arrays a util function modified (d)"""
     U = aa.util.regularization
-    p = [float(Fraction(x)) for x in s["par"]]
-    nbw = len(o["nb"][0]) if o["nb"] else 0
-    nb = np.array(o["nb"], dtype=int).reshape((len(o["nb"]), nbw)); sz = np.array(o["sizes"], dtype=int)
-    sig = np.array([float(Fraction(x)) for x in o["signals"]])
+    cv = COEF_KINDS[ckind]
+    p = [cv(float(Fraction(x))) for x in s["par"]]
+    nb, sz = nb_arrays(o, ak)
+    sig = sig_array(o, ak)
     n = s["name"]
-    if n == "Constant": return lambda: U.constant_regularization_matrix_from(coefficient=p[0], neighbors=nb, neighbors_sizes=sz)
-    if n == "ConstantZeroth": return lambda: U.constant_zeroth_regularization_matrix_from(coefficient=p[0], coefficient_zeroth=p[1], neighbors=nb, neighbors_sizes=sz)
+    def guarded(f, **arrs):
+        """call f(**arrs), then compare every array argument with its copy"""
+        before = {k: (v.copy(), v.dtype, v.shape) for k, v in arrs.items()}
+        out = f(**arrs)
+        if intact is not None:
+            for k, v in arrs.items():
+                c, dt, sh = before[k]
+                if v.dtype != dt or v.shape != sh or not np.array_equal(v, c): intact.append(k)
+        return out
+    if n == "Constant": return lambda: guarded(lambda **a: U.constant_regularization_matrix_from(coefficient=p[0], **a), neighbors=nb, neighbors_sizes=sz)
+    if n == "ConstantZeroth": return lambda: guarded(lambda **a: U.constant_zeroth_regularization_matrix_from(coefficient=p[0], coefficient_zeroth=p[1], **a), neighbors=nb, neighbors_sizes=sz)
     if n == "Zeroth": return lambda: U.zeroth_regularization_matrix_from(coefficient=p[0], pixels=o["params"])
     if n == "AdaptiveBrightness":
-        return lambda: U.weighted_regularization_matrix_from(
-            regularization_weights=U.adaptive_regularization_weights_from(inner_coefficient=p[0], outer_coefficient=p[1], pixel_signals=sig),
-            neighbors=nb, neighbors_sizes=sz)
+        def ab():
+            rw = guarded(lambda **a: U.adaptive_regularization_weights_from(inner_coefficient=p[0], outer_coefficient=p[1], **a), pixel_signals=sig)
+            return guarded(lambda **a: U.weighted_regularization_matrix_from(**a), regularization_weights=rw, neighbors=nb, neighbors_sizes=sz)
+        return ab
     if n == "BrightnessZeroth":
-        return lambda: U.brightness_zeroth_regularization_matrix_from(
-            regularization_weights=U.brightness_zeroth_regularization_weights_from(coefficient=p[0], pixel_signals=sig))
+        def bz():
+            rw = guarded(lambda **a: U.brightness_zeroth_regularization_weights_from(coefficient=p[0], **a), pixel_signals=sig)
+            return guarded(lambda **a: U.brightness_zeroth_regularization_matrix_from(**a), regularization_weights=rw)
+        return bz
     def split():
-        m, z, w = split_arrays(o)
-        m, z, w = U.reg_split_from(splitted_mappings=m, splitted_sizes=z, splitted_weights=w)
+        m, z, w = split_arrays(o, ak)
+        m, z, w = U.reg_split_from(splitted_mappings=m, splitted_sizes=z, splitted_weights=w)      # works in place by design
         P = int(len(m) / 4)
         rw = np.full(fill_value=p[0], shape=(P,)) if n == "ConstantSplit" else \
-            U.adaptive_regularization_weights_from(inner_coefficient=p[0], outer_coefficient=p[1], pixel_signals=sig)
-        return U.pixel_splitted_regularization_matrix_from(regularization_weights=rw, splitted_mappings=m, splitted_sizes=z, splitted_weights=w)
+            guarded(lambda **a: U.adaptive_regularization_weights_from(inner_coefficient=p[0], outer_coefficient=p[1], **a), pixel_signals=sig)
+        return guarded(lambda **a: U.pixel_splitted_regularization_matrix_from(**a), regularization_weights=rw, splitted_mappings=m, splitted_sizes=z, splitted_weights=w)
     return split
 
 PD_SCHEMES = {"Constant", "ConstantZeroth", "AdaptiveBrightness", "ConstantSplit", "AdaptiveBrightnessSplit"}
@@ -448,6 +527,10 @@ def run_case(inp):
     if op == "hist": return run_hist(aa, inp)
     if op == "reuse": return run_reuse(aa, inp)
     if op == "signals": return run_signals(aa, inp)
+    if op == "kinds": return run_kinds(aa, inp)
+    if op == "seq": return run_seq(aa, inp)
+    if op == "kreuse": return run_kreuse(aa, inp)
+    if op == "voronoi": return run_voronoi(aa, inp)
     raise ValueError(op)
 
 def size_of(s, o):
@@ -474,16 +557,18 @@ def run_mock(aa, inp):
     reg, out_m, w, terms = scheme_cases(aa, s, o, mapper, "mock")
     # the util function, and LinearObj.regularization_matrix with the scheme attached
     # (an observation identical to the first one has the same verdict: only a differing one is sent to Coq as well)
-    out_u = call(util_call(aa, s, o))
+    touched = []
+    out_u = call(util_call(aa, s, o, intact=touched))
     if out_u != out_m: terms.append(f"(KMatrix {cscheme(s)} {clobj(fo(o))} {cres_m(out_u)})")
     out_l = call(lambda: mock_mapper(aa, o, reg=reg).regularization_matrix)
     if out_l != out_m: terms.append(f"(KMatrix {cscheme(s)} {clobj(fo(o))} {cres_m(out_l)})")
     wf = wf_of(s, o)
     ok = pd_observed(out_m, s["name"], wf)
+    if touched: ok = False          # (d) a util function modified an array of its caller
     edges = sum(o["sizes"]) // 2
     return {"coq": terms[0], "extra_coq": terms[1:], "out": {"matrix": summary(out_m), "weights": [str(x) for x in w] if isinstance(w, list) else w},
             "py_ok": ok, "kind": "mock:" + s["name"] + (":" + inp["malformed"] if inp.get("malformed") else ""),
-            "nontrivial": o["params"] >= 3 and edges >= 2}
+            "nontrivial": o["params"] >= 3 and edges >= 2, "detail": {"util_modified_its_arguments": touched} if touched else {}}
 
 def obj_from_mapper(mapper, s, signal_scale, with_split):
     nb = np.asarray(mapper.source_plane_mesh_grid.neighbors)
@@ -541,6 +626,29 @@ def real_common(aa, inp, mapper, s, kind, with_split, fresh=None):
         t, so = mapper_signals_case(mapper, inp["signal_scale"])
         terms.append(t)
         if so[0] != "ok" or [str(x) for x in so[1]] != o["signals"]: ok = False; detail["signals"] = "pixel_signals_from changed between two calls"
+    # (f) a user SUBCLASS of the scheme class, coefficients / signal_scale given as Python ints where they are integral
+    variants = [("subclass", dict(sub=True))]
+    if all(Fraction(x).denominator == 1 for x in s["par"]): variants.append(("int coefficients", dict(ckind="pyint", ss_int=True)))
+    variants.append(("numpy.float64 coefficients", dict(ckind="npf64")))
+    for label, kw in variants:
+        out_v = call(lambda: make_reg(aa, s, **kw).regularization_matrix_from(linear_obj=mapper))
+        if out_v != out_m:
+            terms.append(f"(KMatrix {cscheme(s)} {clobj(fo(o))} {cres_m(out_v)})"); ok = False; detail[label] = "differs from the plain scheme object's matrix"
+    # (a) the same mapper asked for ANOTHER signal scale (state remembered from the previous call), then the scheme object's
+    #     signal_scale edited in place: both must equal what a fresh mapper gives a fresh scheme object
+    if s["name"] in SIGNAL_SCHEMES and fresh is not None:
+        s_o = dict(s, signal_scale=3 - int(inp["signal_scale"]) if int(inp["signal_scale"]) in (1, 2) else 1)
+        f_m = fresh()
+        want = call(lambda: make_reg(aa, s_o).regularization_matrix_from(linear_obj=f_m))
+        got = call(lambda: make_reg(aa, s_o).regularization_matrix_from(linear_obj=mapper))
+        reg.signal_scale = float(s_o["signal_scale"])
+        got2 = call(lambda: reg.regularization_matrix_from(linear_obj=mapper))
+        reg.signal_scale = float(s["signal_scale"])
+        for label, g in (("other_signal_scale", got), ("signal_scale_edited", got2)):
+            if g != want:
+                ok = False; detail[label] = "differs from a fresh mapper / scheme object with that signal scale"
+                o_o = obj_from_mapper(f_m, s_o, s_o["signal_scale"], with_split)
+                terms.append(f"(KMatrix {cscheme(s_o)} {clobj(fo(o_o))} {cres_m(g)})")
     # (d) nothing the schemes read was modified: compare with an identically built, untouched mapper
     if fresh is not None:
         if fingerprint(mapper) != fingerprint(fresh()): ok = False; detail["inputs"] = "the mapper's arrays were modified by the calls"
@@ -549,27 +657,91 @@ def real_common(aa, inp, mapper, s, kind, with_split, fresh=None):
 
 ADAPT_KINDS = {"ties": lambda rng: 4.0, "zeros": lambda rng: float(rng.choice([0, 0, 3, 8])), "tiny": lambda rng: rng.randint(1, 16) * 2.0 ** -40,
                "huge": lambda rng: rng.randint(1, 16) * 2.0 ** 40, "derived": lambda rng: float(rng.randint(1, 16))}
+def default_objects(aa):
+    """the shared DEFAULT-ARGUMENT objects (SettingsInversion(), Preloads(), OverSamplingDataset() ...) of the callables on the routes
+    to the regularization matrices: (label, object)"""
+    import inspect
+    from autoarray.inversion.inversion import factory
+    from autoarray.inversion.inversion.abstract import AbstractInversion
+    fs = [("Inversion", aa.Inversion), ("inversion_imaging_from", factory.inversion_imaging_from), ("inversion_interferometer_from", factory.inversion_interferometer_from),
+          ("AbstractInversion", AbstractInversion.__init__), ("InversionImagingMapping", aa.InversionImagingMapping.__init__),
+          ("InversionImagingWTilde", aa.InversionImagingWTilde.__init__), ("InversionInterferometerMapping", aa.InversionInterferometerMapping.__init__),
+          ("InversionInterferometerWTilde", aa.InversionInterferometerWTilde.__init__), ("MockInversion", aa.m.MockInversion.__init__),
+          ("mesh.Rectangular.mapper_grids_from", aa.mesh.Rectangular.mapper_grids_from), ("mesh.Delaunay.mapper_grids_from", aa.mesh.Delaunay.mapper_grids_from),
+          ("Imaging", aa.Imaging.__init__), ("Interferometer", aa.Interferometer.__init__)]
+    out = []
+    for label, f in fs:
+        try: ps = inspect.signature(f).parameters
+        except Exception: continue
+        for k, v in ps.items():
+            d = v.default
+            if d is not inspect.Parameter.empty and hasattr(d, "__dict__") and not isinstance(d, type) and not callable(d):
+                out.append((label + "." + k, d))
+    return out
+
+def fp_value(v, depth=0):
+    if isinstance(v, np.ndarray): return ("nd", str(v.dtype), v.shape, np.ascontiguousarray(v).tobytes())
+    if isinstance(v, (list, tuple)): return (type(v).__name__, [fp_value(x, depth + 1) for x in v]) if depth < 3 else (type(v).__name__, len(v))
+    if isinstance(v, dict): return ("dict", sorted((str(k), fp_value(x, depth + 1)) for k, x in v.items())) if depth < 3 else ("dict", len(v))
+    if v is None or isinstance(v, (bool, int, float, str, complex)): return repr(v)
+    if hasattr(v, "__dict__") and depth < 2: return (type(v).__name__, sorted((k, fp_value(x, depth + 1)) for k, x in vars(v).items()))
+    return type(v).__name__
+
+def fp_objects(objs):
+    return [(label, fp_value(vars(o))) for label, o in objs]
+
 def run_rect(aa, inp):
     import random
     dh, dw = inp["data_shape"]
     ps = tuple(inp["pixel_scales"]) if inp.get("pixel_scales") else 1.0
     org = tuple(inp.get("origin") or (0.0, 0.0))
+    sub = bool(inp.get("sub"))
+    classes = {}
     def mk():
         rng = random.Random(inp["seed"])
         mask = aa.Mask2D.all_false(shape_native=(dh, dw), pixel_scales=ps, origin=org)
         grid = aa.Grid2D.from_mask(mask=mask)
-        mesh = aa.Mesh2DRectangular.overlay_grid(shape_native=tuple(inp["shape"]), grid=grid)
         gen = ADAPT_KINDS.get(inp.get("adapt"), lambda r: float(r.randint(1, 16)))
         vals = np.array([gen(rng) for _ in range(dh * dw)])
         if inp.get("adapt") == "zeros": vals[rng.randrange(len(vals))] = 5.0      # a positive maximum
+        if inp.get("adapt_dtype"): vals = vals.astype(inp["adapt_dtype"])          # (f) integer- / float32-typed adapt image (integral values)
         adapt = aa.Array2D(values=vals, mask=mask)
         if inp.get("adapt") == "derived":
             # (b) a DERIVED adapt image: arithmetic on an array whose native form was read before
             adapt.native
             adapt = (adapt * 2.0 + 1.0)
-        mg = aa.MapperGrids(mask=mask, source_plane_data_grid=grid, source_plane_mesh_grid=mesh, adapt_data=adapt)
-        return aa.Mapper(mapper_grids=mg, over_sampler=aa.OverSamplerUniform(mask=mask, sub_size=1), regularization=None)
-    return real_common(aa, inp, mk(), inp["scheme"], "rect" + (":" + inp["adapt"] if inp.get("adapt") else ""), False, fresh=mk)
+        if inp.get("via") == "meshclass":
+            # (g) the public route: mesh class -> mapper_grids_from (shared default Preloads object) -> Mapper factory
+            mc = subcls(aa.mesh.Rectangular) if sub else aa.mesh.Rectangular
+            mg = mc(shape=tuple(inp["shape"])).mapper_grids_from(mask=mask, source_plane_data_grid=grid, adapt_data=adapt)
+        else:
+            mesh = aa.Mesh2DRectangular.overlay_grid(shape_native=tuple(inp["shape"]), grid=grid)
+            if sub:
+                # (f) a subclass instance of the mesh structure: the Mapper factory must still build a MapperRectangular
+                mesh = subcls(aa.Mesh2DRectangular)(values=np.array(mesh), shape_native=mesh.shape_native, pixel_scales=mesh.pixel_scales, origin=mesh.origin)
+            mg = aa.MapperGrids(mask=mask, source_plane_data_grid=grid, source_plane_mesh_grid=mesh, adapt_data=adapt)
+        mp = aa.Mapper(mapper_grids=mg, over_sampler=aa.OverSamplerUniform(mask=mask, sub_size=1), border_relocator=None, regularization=None)
+        classes["mapper"] = type(mp).__name__
+        if sub and isinstance(mp, aa.MapperRectangular):
+            mp = subcls(aa.MapperRectangular)(mapper_grids=mg, over_sampler=aa.OverSamplerUniform(mask=mask, sub_size=1), border_relocator=None, regularization=None)
+        return mp
+    defs = default_objects(aa); fp0 = fp_objects(defs)
+    mapper = mk()
+    if not isinstance(mapper, aa.MapperRectangular):
+        return {"coq": None, "out": {"classes": classes}, "py_ok": False, "kind": "rect:factory", "nontrivial": True,
+                "detail": "the Mapper factory did not return a MapperRectangular for a (subclass of a) rectangular mesh"}
+    kind = "rect" + (":" + inp["adapt"] if inp.get("adapt") else "") + (":" + inp["adapt_dtype"] if inp.get("adapt_dtype") else "") + \
+           (":meshclass" if inp.get("via") else "") + (":sub" if sub else "")
+    r = real_common(aa, inp, mapper, inp["scheme"], kind, False, fresh=mk)
+    if fp_objects(defs) != fp0:
+        r["py_ok"] = False; r.setdefault("detail", {})["defaults"] = "a shared default-argument object was modified"
+    if inp.get("via") or sub or inp.get("adapt_dtype"):
+        # the plain route (overlay_grid, float64 adapt image, library classes) must give the very same matrix
+        plain = dict(inp); [plain.pop(k, None) for k in ("via", "sub", "adapt_dtype")]
+        want = run_rect(aa, plain)
+        if want["out"]["matrix"] != r["out"]["matrix"]:
+            r["py_ok"] = False; r.setdefault("detail", {})["route"] = "differs from the plain route's matrix"
+    return r
 
 def mesh_points(inp, rng):
     """vertex sets of the Delaunay streams.  lattice: 5-9 quarter-lattice points (degrees 2-6);
@@ -634,20 +806,46 @@ def run_delaunay(aa, inp):
         mask = aa.Mask2D.all_false(shape_native=(4, 4), pixel_scales=1.0)
         grid = aa.Grid2D.from_mask(mask=mask)
         adapt = aa.Array2D(values=np.array([float(rng.randint(1, 16)) for _ in range(16)]), mask=mask)
-        dm = aa.Mesh2DDelaunay(values=aa.Grid2DIrregular(pts))
+        vk = inp.get("values", "irregular")
+        # (f) the KIND of vertex container: Grid2DIrregular (usual), its subclass Grid2DIrregularUniform, a plain ndarray, a list of tuples
+        vals = {"irregular": lambda: aa.Grid2DIrregular(pts), "ndarray": lambda: np.array(pts, dtype=float), "list": lambda: [tuple(p) for p in pts],
+                "uniform": lambda: aa.Grid2DIrregularUniform(values=pts, shape_native=(1, len(pts)), pixel_scales=1.0)}[vk]()
+        MC = subcls(aa.Mesh2DDelaunay) if inp.get("sub") else aa.Mesh2DDelaunay
+        dm = MC(values=vals)
         if inp.get("derived"):
             # (b) a DERIVED mesh: arithmetic on a mesh whose triangulation and neighbours were read before
             dm0 = aa.Mesh2DDelaunay(values=aa.Grid2DIrregular([(y * 0.5 - 1.0, x * 0.5 + 2.0) for (y, x) in pts]))
             dm0.delaunay; dm0.neighbors
             dm = (dm0 - np.array([-1.0, 2.0])) * 2.0
         dm.delaunay
-        mg = aa.MapperGrids(mask=mask, source_plane_data_grid=grid, source_plane_mesh_grid=dm, adapt_data=adapt)
-        return aa.Mapper(mapper_grids=mg, over_sampler=aa.OverSamplerUniform(mask=mask, sub_size=1), regularization=None)
-    try: mapper = mk()
+        if inp.get("via") == "meshclass":
+            # (g) the public route: mesh class -> mapper_grids_from (shared default Preloads object) -> Mapper factory
+            mc = subcls(aa.mesh.Delaunay) if inp.get("sub") else aa.mesh.Delaunay
+            mg = mc().mapper_grids_from(mask=mask, source_plane_data_grid=grid, source_plane_mesh_grid=aa.Grid2DIrregular(pts), adapt_data=adapt)
+        else:
+            mg = aa.MapperGrids(mask=mask, source_plane_data_grid=grid, source_plane_mesh_grid=dm, adapt_data=adapt)
+        mp = aa.Mapper(mapper_grids=mg, over_sampler=aa.OverSamplerUniform(mask=mask, sub_size=1), border_relocator=None, regularization=None)
+        if inp.get("sub") and isinstance(mp, aa.MapperDelaunay):
+            mp = subcls(aa.MapperDelaunay)(mapper_grids=mg, over_sampler=aa.OverSamplerUniform(mask=mask, sub_size=1), border_relocator=None, regularization=None)
+        return mp
+    try: aa.Mesh2DDelaunay(values=aa.Grid2DIrregular(pts)).delaunay
     except Exception as e:
         return {"coq": None, "out": "degenerate point set: " + type(e).__name__, "py_ok": None, "kind": "delaunay:skipped", "nontrivial": False}
+    defs = default_objects(aa); fp0 = fp_objects(defs)
+    mapper = mk()
+    if not isinstance(mapper, aa.MapperDelaunay):
+        return {"coq": None, "out": type(mapper).__name__, "py_ok": False, "kind": "delaunay:factory", "nontrivial": True,
+                "detail": "the Mapper factory did not return a MapperDelaunay for a (subclass of a) Delaunay mesh"}
     dm = mapper.source_plane_mesh_grid
-    r = real_common(aa, inp, mapper, inp["scheme"], "delaunay" + (":" + inp["mesh"] if inp.get("mesh") else "") + (":derived" if inp.get("derived") else ""), True, fresh=mk)
+    variant = "".join(":" + str(inp[k]) if k == "values" else ":" + k for k in ("values", "via", "sub") if inp.get(k))
+    r = real_common(aa, inp, mapper, inp["scheme"], "delaunay" + (":" + inp["mesh"] if inp.get("mesh") else "") + (":derived" if inp.get("derived") else "") + variant, True, fresh=mk)
+    if fp_objects(defs) != fp0:
+        r["py_ok"] = False; r.setdefault("detail", {})["defaults"] = "a shared default-argument object was modified"
+    if variant:
+        plain = dict(inp); [plain.pop(k, None) for k in ("values", "via", "sub")]
+        want = run_delaunay(aa, plain)
+        if want["out"].get("matrix") != r["out"].get("matrix"):
+            r["py_ok"] = False; r.setdefault("detail", {})["route"] = "differs from the plain route's matrix"
     r["out"]["points"] = pts
     # the neighbour table itself: the edges of the triangulation, every real mesh
     t, ok, deg = delnb_case(dm)
@@ -729,7 +927,7 @@ def run_kernel(aa, inp):
         mask = aa.Mask2D.all_false(shape_native=(3, 3), pixel_scales=1.0)
         grid = aa.Grid2D.from_mask(mask=mask)
         mg = aa.MapperGrids(mask=mask, source_plane_data_grid=grid, source_plane_mesh_grid=dm)
-        mapper = aa.Mapper(mapper_grids=mg, over_sampler=aa.OverSamplerUniform(mask=mask, sub_size=1), regularization=None)
+        mapper = aa.Mapper(mapper_grids=mg, over_sampler=aa.OverSamplerUniform(mask=mask, sub_size=1), border_relocator=None, regularization=None)
     else:
         mapper = aa.m.MockMapper(source_plane_mesh_grid=arr, parameters=len(pts))
     C = np.asarray(cov_from(scale=scale, pixel_points=arr), dtype=float)
@@ -752,16 +950,57 @@ def run_kernel(aa, inp):
 
 def run_rectnb(aa, inp):
     h, w = inp["shape"]
-    nb, sz = aa.util.mesh.rectangular_neighbors_from(shape_native=(h, w))
-    rows = [[int(x) for x in r[:int(k)]] for r, k in zip(nb, sz)]
+    def table(hh, ww):
+        nb, sz = aa.util.mesh.rectangular_neighbors_from(shape_native=(hh, ww))
+        return [[int(x) for x in r[:int(k)]] for r, k in zip(nb, sz)]
+    def table_cls(hh, ww):
+        mesh = aa.Mesh2DRectangular.overlay_grid(shape_native=(hh, ww), grid=np.array([[0.0, 0.0], [1.0, 1.0]]))
+        return [[int(x) for x in r[:int(k)]] for r, k in zip(np.asarray(mesh.neighbors), np.asarray(mesh.neighbors.sizes))], int(mesh.pixels)
+    rows = table(h, w)
     ok = None
+    extra, detail = [], {}
     if h >= 3 and w >= 3:
         # the class layer (astype("int"), Neighbors) must hand over the same table
-        mesh = aa.Mesh2DRectangular.overlay_grid(shape_native=(h, w), grid=np.array([[0.0, 0.0], [1.0, 1.0]]))
-        rows2 = [[int(x) for x in r[:int(k)]] for r, k in zip(np.asarray(mesh.neighbors), np.asarray(mesh.neighbors.sizes))]
-        ok = rows2 == rows and int(mesh.pixels) == h * w
-    return {"coq": f"(KRect {cnat(h)} {cnat(w)} {czm(rows)})", "out": rows if h * w <= 12 else rows[:6], "py_ok": ok,
-            "kind": "rectnb" + (":degenerate" if min(h, w) < 2 else ""), "nontrivial": min(h, w) >= 2}
+        rows2, px = table_cls(h, w)
+        ok = rows2 == rows and px == h * w
+    # (a) the same functions asked for OTHER shapes in between (the transposed shape; shapes with the same pixel count, the same
+    #     first / second dimension), then for this shape again
+    others = [(w, h)] if h != w else []
+    n = h * w
+    others += [(a, n // a) for a in range(1, n + 1) if n % a == 0 and (a, n // a) not in ((h, w), (w, h))][:1]
+    others += [(h, w + 1), (h + 1, w)]
+    for (a, b) in others:
+        t = table(a, b)
+        if (a, b) == (w, h):
+            extra.append(f"(KRect {cnat(a)} {cnat(b)} {czm(t)})")
+            if rect_table_py(a, b) is not None and [sorted(r) for r in t] != rect_table_py(a, b): ok = False; detail["transposed"] = "not the 4-neighbourhood of the transposed shape"
+        elif rect_table_py(a, b) is None or [sorted(r) for r in t] != rect_table_py(a, b): extra.append(f"(KRect {cnat(a)} {cnat(b)} {czm(t)})"); detail["other"] = [a, b]
+        if a >= 3 and b >= 3 and table_cls(a, b)[0] != t: ok = False; detail["class_other"] = [a, b]
+    # (f) the shape given as a list / an integer ndarray / numpy integers
+    for label, sn in (("list", [h, w]), ("ndarray", np.array([h, w])), ("numpy ints", (np.int64(h), np.int32(w)))):
+        nbk, szk = aa.util.mesh.rectangular_neighbors_from(shape_native=sn)
+        if [[int(x) for x in r[:int(k)]] for r, k in zip(nbk, szk)] != rows:
+            ok = False; detail["shape as " + label] = "differs"; extra.append(f"(KRect {cnat(h)} {cnat(w)} {czm([[int(x) for x in r[:int(k)]] for r, k in zip(nbk, szk)])})")
+    again = table(h, w)
+    if again != rows: ok = False; detail["again"] = "the second call for this shape differs from the first"; extra.append(f"(KRect {cnat(h)} {cnat(w)} {czm(again)})")
+    if h >= 3 and w >= 3 and table_cls(h, w)[0] != rows: ok = False; detail["class_again"] = "Mesh2DRectangular.neighbors differs after other shapes were asked for"
+    return {"coq": f"(KRect {cnat(h)} {cnat(w)} {czm(rows)})", "extra_coq": extra, "out": rows if h * w <= 12 else rows[:6], "py_ok": ok,
+            "kind": "rectnb" + (":degenerate" if min(h, w) < 2 else ""), "nontrivial": min(h, w) >= 2, "detail": detail}
+
+def rect_table_py(h, w):
+    """the grid's 4-neighbourhood in the order the routine lists it (up, left, right, down); used only to decide whether an
+    in-between observation needs to be sent to Coq as well (the verdict is Coq's)"""
+    if h < 2 or w < 2: return None          # degenerate shapes: always sent to Coq
+    out = []
+    for r in range(h):
+        for c in range(w):
+            row = []
+            if r > 0: row.append((r - 1) * w + c)
+            if c > 0: row.append(r * w + c - 1)
+            if c < w - 1: row.append(r * w + c + 1)
+            if r < h - 1: row.append((r + 1) * w + c)
+            out.append(sorted(row))
+    return out
 
 # ------------------------------------------------------------------ real inversions
 _HFUNC = {}
@@ -779,12 +1018,13 @@ def hfunc_cls(aa):
         _HFUNC["c"] = HarnessFuncList
     return _HFUNC["c"]
 
-def make_any_reg(aa, s):
+def make_any_reg(aa, s, sub=False):
     if s is None: return None
     if s["name"] in KERNELS:
         c, sc = [float(Fraction(x)) for x in s["par"]]
-        return (aa.reg.GaussianKernel if s["name"] == "GaussianKernel" else aa.reg.ExponentialKernel)(coefficient=c, scale=sc)
-    return make_reg(aa, s)
+        K = aa.reg.GaussianKernel if s["name"] == "GaussianKernel" else aa.reg.ExponentialKernel
+        return (subcls(K) if sub else K)(coefficient=c, scale=sc)
+    return make_reg(aa, s, sub=sub)
 
 def real_dataset(aa, inp):
     import random
@@ -1065,7 +1305,7 @@ def phase3_inputs(rng, big):
         if s2["par"] == s1["par"]: s2["par"] = [str(Fraction(x) + 1) for x in s2["par"]]
         yield {"op": "reuse", "real": i % 3 == 2, "scheme": s1, "scheme_edit": s2, "scheme_other": rand_scheme(rng, SCHEMES[(i + 3) % 7]),
                "objA": rand_mock_obj(rng, n1), "objB": rand_mock_obj(rng, n2), "seed": rng.randrange(10 ** 9),
-               "mesh": ["rect", "delaunay"][(i // 3) % 2], "signal_scale": rng.choice([1, 2])}
+               "mesh": ["rect", "delaunay"][(i // 3) % 2], "signal_scale": rng.choice([1, 2]), "same_count": i % 2 == 1}
     # (e) tiny / huge coefficients and signals (mock mappers: exact), real meshes with anisotropic pixels and shifted origins
     for i in range(168 if big else 42):
         n = rng.randint(3, 6)
@@ -1282,7 +1522,7 @@ def run_reuse(aa, inp):
                     mesh = aa.Mesh2DRectangular.overlay_grid(shape_native=(3, 3) if which == "A" else (3, 4), grid=grid)
                 else:
                     pts = set()
-                    while len(pts) < (6 if which == "A" else 8): pts.add((r2.randint(-8, 8) / 4.0, r2.randint(-8, 8) / 4.0))
+                    while len(pts) < (6 if which == "A" or inp.get("same_count") else 8): pts.add((r2.randint(-8, 8) / 4.0, r2.randint(-8, 8) / 4.0))
                     pts = sorted(pts); r2.shuffle(pts)
                     mesh = aa.Mesh2DDelaunay(values=aa.Grid2DIrregular(pts)); mesh.delaunay
                 mg = aa.MapperGrids(mask=mask, source_plane_data_grid=grid, source_plane_mesh_grid=mesh, adapt_data=adapt)
@@ -1326,10 +1566,17 @@ def run_reuse(aa, inp):
     # (c) one linear object: scheme attached, matrix read, another scheme attached, matrix read again (LinearObj.regularization_matrix)
     mC = mk["A"](reg=make_reg(aa, S1))
     c1 = observe("5:A.regularization_matrix", s1, "A", lambda: mC.regularization_matrix)
+    if not (fresh_each_call and split):
+        set_pars(mC.regularization, S1e)             # (c) the attached scheme's coefficients edited in place, the property read again
+        observe("5b:A.regularization_matrix, coefficients edited", s1e, "A", lambda: mC.regularization_matrix)
     split2 = s2["name"] in ("ConstantSplit", "AdaptiveBrightnessSplit")
     if not (fresh_each_call and split and split2):
         mC.regularization = make_reg(aa, S2)
         observe("6:A.regularization_matrix, other scheme", s2, "A", lambda: mC.regularization_matrix)
+    # (c) the scheme detached again: an all-zero block of the object's size
+    mC.regularization = None
+    Z = np.asarray(mC.regularization_matrix)
+    if Z.shape != (int(mC.params), int(mC.params)) or bool(np.any(Z != 0.0)): ok = False; notes["detached"] = "regularization = None does not give an all-zero params x params block"
     if inp["real"]:
         # (c) the adapt image edited in place by the user: the signals (and the weights) follow
         mD = mk["A"]()
@@ -1341,6 +1588,9 @@ def run_reuse(aa, inp):
             oD = obj_from_mapper(mD, S1, ss, inp["mesh"] == "delaunay")
             outD = call(lambda: regD.regularization_matrix_from(linear_obj=mD))
             terms.append(f"(KMatrix {cscheme(s1)} {clobj(fo(oD))} {cres_m(outD)})")
+        if inp["mesh"] == "delaunay":
+            for which, m in (("A", mA), ("B", mB)):
+                if not delnb_case(m.source_plane_mesh_grid, coq=False)[1]: ok = False; notes["neighbors " + which] = "not the edge set of delaunay.simplices"
         # (d) the arrays of the objects after all these calls
         if fingerprint(mA) != fingerprint(mk["A"]()) or fingerprint(mB) != fingerprint(mk["B"]()):
             ok = False; notes["inputs"] = "a mapper's arrays were modified by the calls"
@@ -1377,5 +1627,369 @@ def run_signals(aa, inp):
         out = ("raise", "OtherException")
     if out[0] == "raise" and out[1] not in ("IndexError", "OtherException"): out = ("raise", "OtherException")
     term = signals_term(inp["pixels"], inp["signal_scale"], idx, sizes, wts, slim, adapt, out)
-    return {"coq": term, "out": {"signals": [float(x) for x in out[1]] if out[0] == "ok" else out[1]}, "py_ok": ok, "kind": "signals:" + inp["kind"] + ":" + out[0],
-            "nontrivial": inp["pixels"] >= 3 and len(rows) >= 3}
+    extra, notes = [], {}
+    if inp["kind"] == "kinds":
+        def go(ix, sz, wt, sl, ad, pw=float(inp["signal_scale"])):
+            return vec_out(lambda: mapper_util.adaptive_pixel_signals_from(pixels=inp["pixels"], pixel_weights=wt, signal_scale=pw, pix_indexes_for_sub_slim_index=ix,
+                                                                           pix_size_for_sub_slim_index=sz, slim_index_for_sub_slim_index=sl, adapt_data=ad))
+        # (a) another data image through the same function, then the first one again
+        adapt2 = np.array([float(Fraction(x)) for x in inp["adapt2"]], dtype=float)
+        out2 = go(idx, sizes, wts, slim, adapt2)
+        extra.append(signals_term(inp["pixels"], inp["signal_scale"], idx, sizes, wts, slim, adapt2, out2))
+        # (f) the same values as other kinds of arrays (the weights are quarters, the data integers: float32 holds them exactly)
+        variants = {"again": (idx, sizes, wts, slim, adapt),
+                    "integer data image": (idx, sizes, wts, slim, adapt.astype("int64")),
+                    "int32 index arrays": (idx.astype("int32"), sizes.astype("int32"), wts, slim.astype("int32"), adapt),
+                    "float32 weights": (idx, sizes, wts.astype("float32"), slim, adapt),
+                    "views": tuple(conv_arr(a, None, "view") for a in (idx, sizes, wts, slim, adapt)),
+                    "Fortran order, int8": (conv_arr(idx, "int8", "F"), sizes.astype("int8"), conv_arr(wts, None, "F"), slim.astype("int8"), adapt)}
+        for label, arrs in variants.items():
+            o_v = go(*arrs)
+            if o_v != out:
+                ok = False; notes[label] = "differs from the float64 observation"
+                extra.append(signals_term(inp["pixels"], inp["signal_scale"], idx, sizes, wts, slim, adapt, o_v))
+        o_i = go(idx, sizes, wts, slim, adapt, pw=int(inp["signal_scale"]))          # signal_scale as a Python int: compared by Coq (a power, not bit-exact)
+        if o_i != out: extra.append(signals_term(inp["pixels"], inp["signal_scale"], idx, sizes, wts, slim, adapt, o_i))
+    return {"coq": term, "extra_coq": extra, "out": {"signals": [float(x) for x in out[1]] if out[0] == "ok" else out[1], "notes": notes}, "py_ok": ok,
+            "kind": "signals:" + inp["kind"] + ":" + out[0], "nontrivial": inp["pixels"] >= 3 and len(rows) >= 3, "detail": notes}
+
+# ====================================================================== phase 4 (pre-emptive hardening)
+# (f) input KINDS (integer / float32 / 0-d coefficients, integer / bool / float32 signals, int8 / int32 index arrays, Fortran-ordered
+#     and non-contiguous arrays, size-1 objects, subclass instances of schemes / mappers / meshes / mesh classes);
+# (g) shared DEFAULT-ARGUMENT objects and caller-owned settings / preloads fingerprinted, SEQUENCES of different inversions through the
+#     same defaults; (a) sequences through module-level functions; (h) directed rare states; siblings: interferometer inversions,
+#     Voronoi meshes, the mesh-class route (mesh.Rectangular / mesh.Delaunay .mapper_grids_from).
+KIND_COEFS_INT = ["1", "2", "3"]
+KIND_COEFS = ["1/2", "1", "3/2", "2", "3"]
+def kinds_obj(rng, n, intsig):
+    o = rand_mock_obj(rng, n, style=rng.choice(["ring", "star", "path", "random"]) if n > 1 else "path")
+    # few-bit dyadic values only: every float32 computation on them is exact
+    o["signals"] = [rng.choice(["0", "1"] if intsig else ["0", "1/2", "1", "1"]) for _ in range(n)]
+    if n: o["signals"][rng.randrange(n)] = "1"
+    o["sw"] = [[w if Fraction(w).denominator <= 4 else "1/4" for w in r] for r in o["sw"]]
+    return o
+
+def phase4_inputs(rng, big):
+    # (f) kinds: every scheme x {integral, dyadic} coefficients x {0/1, dyadic} signals; sizes 1..4 (size-1 objects included)
+    for i in range(140 if big else 21):
+        name = SCHEMES[i % 7]
+        integral = (i // 7) % 2 == 0
+        sc = rand_scheme(rng, name)
+        sc["par"] = [rng.choice(KIND_COEFS_INT if integral else KIND_COEFS) for _ in sc["par"]]
+        n = [1, 3, 4, 2, 3][(i // 7 + i) % 5]
+        yield {"op": "kinds", "scheme": sc, "obj": kinds_obj(rng, n, intsig=(i // 7) % 3 != 1)}
+    # (g)(a) sequences of DIFFERENT inversions through the shared default settings / preloads, caller-owned shared objects, interferometer siblings
+    C2 = {"name": "Constant", "par": ["2"]}; C3 = {"name": "Constant", "par": ["3"]}
+    plans = [
+        ("default", [[("func", C3), ("rect", C2)], [("rect", {"name": "ConstantZeroth", "par": ["1", "2"]}), ("func", C2)], [("func", None), ("func", C3)]]),
+        ("shared", [[("rect", C2)], [("rect", {"name": "Zeroth", "par": ["3/2"]})], [("func", C2), ("func", None)]]),
+        ("ifm", [[("func", None), ("rect", C2)], [("rect", {"name": "AdaptiveBrightness", "par": ["1/2", "2"]}), ("func", C3)]]),
+        ("ifm_shared", [[("delaunay", {"name": "ConstantSplit", "par": ["1"]})], [("delaunay", {"name": "Constant", "par": ["3/2"]}), ("func", None)]]),
+        ("default", [[("func", None), ("lin", None)], [("funcsub", C3)], [("func", None)]]),          # no regularized object at all first
+        ("mixed", [[("func", C2), ("delaunay", {"name": "AdaptiveBrightnessSplit", "par": ["1", "2"]})], [("func", C3), ("delaunay", C2)]]),
+    ]
+    if big:
+        for i in range(18):
+            stages = []
+            for _ in range(rng.choice([2, 3])):
+                k = rng.choice([1, 2, 2])
+                kinds = [rng.choice(["func", "funcsub", "rect", "delaunay", "lin"]) for _ in range(k)]
+                stages.append([(kd, (rand_real_obj(rng, kd, True)["scheme"] if rng.random() < 0.7 else None)) for kd in kinds])
+            plans.append((["default", "shared", "ifm", "ifm_shared", "mixed"][i % 5], stages))
+    for j, (route, stages) in enumerate(plans):
+        st = []
+        for spec in stages:
+            objs = []
+            for kind, sch in spec:
+                o = rand_real_obj(rng, kind, False); o["scheme"] = sch
+                if kind in ("func", "funcsub", "lin"): o["params"] = rng.randint(1, 3)
+                if kind == "rect": o["shape"] = list(rng.choice([(3, 3), (3, 4), (4, 3)]))
+                objs.append(o)
+            st.append(objs)
+        yield {"op": "seq", "route": route, "mask": MASKS[j % len(MASKS)], "seed": rng.randrange(10 ** 9), "stages": st, "sub": j % 2 == 1}
+    # (f)(h) real inversions on a SINGLE unmasked pixel, two pixels, a one-row mask
+    small = [["111", "101", "111"], ["1111", "1001", "1111"], ["111", "101", "101", "111"]]
+    for i in range(12 if big else 3):
+        kinds = [["func", "rect"], ["delaunay", "func"], ["rect", "lin"]][i % 3]
+        objs = [rand_real_obj(rng, kd, rng.random() < 0.8) for kd in kinds]
+        if i % 3 == 0: objs[1]["scheme"] = rand_scheme(rng, rng.choice(["AdaptiveBrightness", "BrightnessZeroth"]))
+        yield {"op": "realinv", "mask": small[(i + i // 3) % 3], "seed": rng.randrange(10 ** 9), "objs": objs, "check_blocks": True}
+    # (a)(c)(f) kernel schemes: one scheme object on two point sets of the same size and on the first again, scale / coefficient edited in
+    #     place, the sibling kernel on the same points, subclass, integer-typed coordinates
+    for i in range(24 if big else 4):
+        yield {"op": "kreuse", "gauss": bool(i % 2), "npts": rng.randint(2, 4), "scale": rng.choice(["1/2", "1", "3/2"]), "scale2": rng.choice(["2", "3"]),
+               "coef": rng.choice(COEFS), "coef2": rng.choice(["4", "5/2"]), "integral": i % 2 == 0, "seed": rng.randrange(10 ** 9)}
+    # sibling mesh: Voronoi (neighbour table from the ridge points), the schemes that need neither signals nor a split-cross table
+    for i in range(18 if big else 3):
+        yield {"op": "voronoi", "npts": rng.randint(5, 8), "scheme": rand_scheme(rng, ["Constant", "ConstantZeroth", "Zeroth"][i % 3]), "seed": rng.randrange(10 ** 9)}
+    # (f)(g) real meshes through other routes / kinds: mesh-class route, subclass instances, integer / float32 adapt images, vertex containers
+    todo = [dict(via="meshclass"), dict(sub=True), dict(adapt_dtype="int64"), dict(adapt_dtype="float32"), dict(via="meshclass", sub=True, adapt_dtype="int32")]
+    for i in range(30 if big else 5):
+        sc = rand_scheme(rng, SCHEMES[:5][(i + 3) % 5] if i % 5 < 2 else rng.choice(["AdaptiveBrightness", "BrightnessZeroth"]))
+        yield dict({"op": "rect", "shape": list(rng.choice([(3, 4), (4, 3), (3, 3)])), "scheme": sc, "signal_scale": rng.choice([1, 2]),
+                    "data_shape": list(rng.choice([(3, 4), (4, 3), (1, 5), (5, 1)])), "seed": rng.randrange(10 ** 9)}, **todo[i % 5])
+    todo = [dict(values="uniform"), dict(values="ndarray", sub=True), dict(via="meshclass"), dict(values="list"), dict(via="meshclass", sub=True)]
+    for i in range(30 if big else 5):
+        yield dict({"op": "delaunay", "npts": rng.randint(5, 7), "scheme": rand_scheme(rng, SCHEMES[(2 * i + 3) % 7]), "signal_scale": rng.choice([1, 2]),
+                    "seed": rng.randrange(10 ** 9)}, **todo[i % 5])
+    # (f)(a) pixel signals at the util layer: integer / float32 / non-contiguous arrays, two data images through the same function
+    for i in range(40 if big else 6):
+        pixels = rng.randint(1, 5); width = rng.choice([1, 3]); nsub = rng.randint(1, 7); nslim = rng.randint(1, nsub)
+        rows = []
+        for k in range(nsub):
+            if width > 1 and pixels >= width and rng.random() < 0.6:
+                rows.append({"idx": rng.sample(range(pixels), width), "size": width, "w": [rng.choice(["0", "1/4", "1/2", "1"]) for _ in range(width)], "slim": rng.randrange(nslim)})
+            else:
+                rows.append({"idx": [rng.randrange(pixels)] + [-1] * (width - 1), "size": 1, "w": ["1"] + ["0"] * (width - 1), "slim": rng.randrange(nslim)})
+        adapt = [str(rng.randint(1, 16)) for _ in range(nslim)]
+        rows[0]["w"][0] = "1"
+        yield {"op": "signals", "pixels": pixels, "rows": rows, "adapt": adapt, "signal_scale": rng.choice([1, 2, 3]), "kind": "kinds",
+               "adapt2": [str(rng.randint(1, 16)) for _ in range(nslim)]}
+
+# ---------------------------------------------------------------------- (f) kinds
+def run_kinds(aa, inp):
+    """one (scheme, object) through every route with the inputs given as OTHER KINDS of the same values: the first (float64, C order,
+    library classes) observation goes to Coq; every other one must be bit-equal to it (all values are few-bit dyadic numbers, so
+    float32 arithmetic on them is exact) -- a differing one is sent to Coq as well"""
+    s, o = inp["scheme"], inp["obj"]
+    O = fo(o)
+    reg, out_m, w, terms = scheme_cases(aa, s, o, mock_mapper(aa, o), "kinds")
+    integral = all(Fraction(x).denominator == 1 for x in s["par"])
+    sig01 = all(x in ("0", "1") for x in o["signals"])
+    variants = [("float32", dict(ckind="f32"), dict(float="float32")),
+                ("int32 index arrays", dict(), dict(int="int32")),
+                ("int8 index arrays, Fortran order", dict(), dict(int="int8", layout="F")),
+                ("non-contiguous views", dict(), dict(layout="view")),
+                ("0-d array coefficients", dict(ckind="arr0"), dict()),
+                ("numpy.float64 coefficients, float32 arrays as views", dict(ckind="npf64"), dict(float="float32", layout="view")),
+                ("subclasses", dict(sub=True), dict(sub=True))]
+    if integral: variants += [("python int coefficients", dict(ckind="pyint"), dict()), ("numpy.int64 coefficients, int32 arrays", dict(ckind="npint"), dict(int="int32"))]
+    if sig01: variants += [("integer signals", dict(), dict(sig="int64")), ("bool signals", dict(), dict(sig="bool"))]
+    if integral and sig01: variants.append(("everything integer-typed", dict(ckind="pyint"), dict(sig="int64", int="int64")))
+    ok, notes = True, {}
+    ws = [str(x) for x in w] if isinstance(w, list) else w
+    for label, rk, ak0 in variants:
+        ak = dict(ak0); sub = ak.pop("sub", False)
+        outs = {}
+        regv = make_reg(aa, s, **rk)
+        outs["class"] = call(lambda: regv.regularization_matrix_from(linear_obj=mock_mapper(aa, o, ak=ak, sub=sub)))
+        outs["linear_obj"] = call(lambda: mock_mapper(aa, o, reg=make_reg(aa, s, **rk), ak=ak, sub=sub).regularization_matrix)
+        touched = []
+        outs["util"] = call(util_call(aa, s, o, ak=ak, ckind=rk.get("ckind", "float"), intact=touched))
+        if touched: ok = False; notes[label + ":modified"] = touched
+        for route, out in outs.items():
+            if out != out_m:
+                ok = False; notes[label + ":" + route] = "differs from the float64 observation"
+                terms.append(f"(KMatrix {cscheme(s)} {clobj(O)} {cres_m(out)})")
+        try:
+            wv = [frac(x) for x in np.asarray(regv.regularization_weights_from(linear_obj=mock_mapper(aa, o, ak=ak, sub=sub)), dtype=float)]
+            if [str(x) for x in wv] != ws:
+                ok = False; notes[label + ":weights"] = "differ"; terms.append(f"(KWeights {cscheme(s)} {clobj(O)} {cqv(wv)})")
+        except Exception as e:
+            if not (isinstance(ws, str) and ws == "EXC " + type(e).__name__): ok = False; notes[label + ":weights"] = type(e).__name__
+    pd = pd_observed(out_m, s["name"], wf_of(s, o))
+    if pd is False: ok = False; notes["pd"] = "not symmetric positive (semi-)definite"
+    return {"coq": terms[0], "extra_coq": terms[1:], "py_ok": ok, "out": {"matrix": summary(out_m), "weights": ws, "variants": len(variants), "notes": notes},
+            "kind": "kinds:" + s["name"] + (":size1" if o["params"] == 1 else ""), "nontrivial": o["params"] >= 3, "detail": notes}
+
+# ---------------------------------------------------------------------- (g)(a) sequences of inversions
+def interferometer_dataset(aa, mask, rng):
+    nv = 7
+    uv = np.array([[rng.randint(-12, 12) / 4.0, rng.randint(-12, 12) / 4.0] for _ in range(nv)])
+    vis = aa.Visibilities(visibilities=np.array([complex(rng.randint(-8, 8) / 2.0, rng.randint(-8, 8) / 2.0) for _ in range(nv)]))
+    # real and imaginary noise differ
+    nm = aa.VisibilitiesNoiseMap(visibilities=np.array([complex(rng.choice([1.0, 2.0, 4.0]), rng.choice([0.5, 2.0, 3.0])) for _ in range(nv)]))
+    return aa.Interferometer(data=vis, noise_map=nm, uv_wavelengths=uv, real_space_mask=mask, transformer_class=aa.TransformerDFT)
+
+def run_seq(aa, inp):
+    """several DIFFERENT inversions one after the other in one process, through the shared default-argument objects or through ONE
+    caller-owned settings / preloads pair; every regularization_matrix(_reduced) against the block assembly of what FRESH objects'
+    schemes return; then the first stage again; the default and caller-owned objects fingerprinted before / after"""
+    from autoarray.preloads import Preloads
+    ds, mask, rng = real_dataset(aa, inp)
+    grid = aa.Grid2D.from_mask(mask=mask)
+    npix = grid.shape[0]
+    adapt = aa.Array2D(values=np.array([float(rng.randint(1, 16)) for _ in range(npix)]), mask=mask)
+    route = inp["route"]
+    ifm = interferometer_dataset(aa, mask, rng) if route.startswith("ifm") or route == "mixed" else None
+    shared_settings, shared_preloads = aa.SettingsInversion(), Preloads()
+    watched = default_objects(aa) + [("caller.settings", shared_settings), ("caller.preloads", shared_preloads)]
+    fp0 = fp_objects(watched)
+    colseed = rng.randrange(10 ** 6)
+    def build(spec):
+        rs = np.random.RandomState(colseed)
+        out = []
+        for d in spec:
+            lo = build_real_obj(aa, d, mask, grid, adapt)
+            if lo is None: return None
+            if d["kind"] in ("func", "funcsub"):
+                cols = rs.randint(1, 9, size=(npix, d["params"])).astype(float)
+                if d["kind"] == "func": lo._mapping_matrix = cols
+                else: lo._cols = cols
+            if inp.get("sub") and lo.regularization is not None and type(lo.regularization).__name__ in SCHEMES + KERNELS:
+                lo.regularization = make_any_reg(aa, dict(d["scheme"], signal_scale=d["signal_scale"]), sub=True)
+            out.append(lo)
+        return out
+    def invert(k, objs):
+        r = route if route != "mixed" else ["default", "ifm", "shared", "ifm_shared"][k % 4]
+        # (the timed path of @profile_func -- run_time_dict given -- cannot be exercised under the library's own default configuration:
+        #  general.yaml has no profiling.repeats entry, every profiled property raises KeyError there; outside this property)
+        kw = {}
+        if r == "default": return aa.Inversion(dataset=ds, linear_obj_list=objs, **kw)
+        if r == "shared": return aa.Inversion(dataset=ds, linear_obj_list=objs, settings=shared_settings, preloads=shared_preloads, **kw)
+        if r == "ifm": return aa.Inversion(dataset=ifm, linear_obj_list=objs, **kw)
+        return aa.Inversion(dataset=ifm, linear_obj_list=objs, settings=shared_settings, preloads=shared_preloads, **kw)
+    ok, notes, terms, classes, shapes = True, {}, [], [], []
+    first = None
+    stages = list(inp["stages"]) + [inp["stages"][0]]
+    for k, spec in enumerate(stages):
+        objs, objs2 = build(spec), build(spec)
+        if objs is None or objs2 is None:
+            return {"coq": None, "out": "degenerate point set", "py_ok": None, "kind": "seq:skipped", "nontrivial": False}
+        regd = [d["scheme"] is not None for d in spec]
+        blocks_np = [np.asarray(lo.regularization_matrix, dtype=float) for lo in objs2]
+        blocks = [mat_out(b) for b in blocks_np]
+        Hs = assemble(blocks_np); Hrs = assemble([b for b, r in zip(blocks_np, regd) if r])
+        ids = [id(x) for x in objs]
+        try:
+            inv = invert(k, objs)
+            H = np.asarray(inv.regularization_matrix, dtype=float); Hr = np.asarray(inv.regularization_matrix_reduced, dtype=float)
+        except Exception as e:
+            ok = False; notes[f"stage {k}"] = "raised " + type(e).__name__ + ": " + str(e)[:200]; continue
+        if [id(x) for x in objs] != ids: ok = False; notes[f"stage {k}:list"] = "the caller's list of linear objects was modified"      # (d)
+        classes.append(type(inv).__name__); shapes.append([int(H.shape[0]), int(Hr.shape[0]) if Hr.ndim == 2 else -1])
+        good = same(H, Hs) and same(Hr.reshape(Hrs.shape) if Hr.size == Hrs.size else Hr, Hrs)
+        if not good: ok = False; notes[f"stage {k}"] = "regularization_matrix(_reduced) is not the block assembly of this stage's objects"
+        last = k == len(stages) - 1
+        if last and first is not None and not (same(H, first[0]) and same(Hr, first[1])):
+            ok = False; notes["again"] = "the first stage's inversion, built again at the end, gives another matrix"
+        if k == 0: first = (H.copy(), Hr.copy())
+        if not last or not good:
+            kernel = any(d["scheme"] and d["scheme"]["name"] in KERNELS for d in spec)
+            L = [lobj_of(d, lo) for d, lo in zip(spec, objs2)]
+            terms.append(objs_term(spec, objs2, L, blocks, mat_out(H), mat_out(Hr), kernel))
+        # the evidence terms exist where every regularized block is positive definite; the weights per object
+        all_pd = all(d["scheme"] is None or (d["scheme"]["name"] in PD_SCHEMES) for d in spec) and any(regd)
+        if all_pd:
+            try:
+                ld = float(inv.log_det_regularization_matrix_term); want = float(np.linalg.slogdet(Hrs)[1])
+                if not np.isfinite(ld) or abs(ld - want) > 1e-6 * max(1.0, abs(want)): ok = False; notes[f"stage {k}:logdet"] = [ld, want]
+            except Exception as e:
+                ok = False; notes[f"stage {k}:logdet"] = "raised " + type(e).__name__
+        for i, (d, lo) in enumerate(zip(spec, objs)):
+            wv = np.asarray(inv.regularization_weights_from(index=i), dtype=float)
+            if d["scheme"] is None: gw = wv.shape == (int(lo.params),) and bool(np.all(wv == 0.0))
+            else: gw = bool(np.array_equal(wv, np.asarray(objs2[i].regularization.regularization_weights_from(linear_obj=objs2[i]), dtype=float)))
+            if not gw: ok = False; notes[f"stage {k}:weights"] = i
+    if fp_objects(watched) != fp0:
+        changed = [a[0] for a, b in zip(fp_objects(watched), fp0) if a != b]
+        ok = False; notes["shared objects"] = "modified: " + ", ".join(changed)
+    order = [[d["kind"] + ":" + (d["scheme"]["name"] if d["scheme"] else "None") for d in spec] for spec in inp["stages"]]
+    return {"coq": terms[0] if terms else None, "extra_coq": terms[1:], "py_ok": ok,
+            "out": {"stages": order, "classes": classes, "shapes": shapes, "notes": notes},
+            "kind": "seq:" + route + (":sub" if inp.get("sub") else ""), "nontrivial": True, "detail": notes}
+
+# ---------------------------------------------------------------------- kernel schemes: reuse / edit / sibling
+def run_kreuse(aa, inp):
+    import random
+    rng = random.Random(inp["seed"])
+    def points():
+        pts = set()
+        while len(pts) < inp["npts"]:
+            pts.add((float(rng.randint(-3, 3)), float(rng.randint(-3, 3))) if inp["integral"] else (rng.randint(-6, 6) / 2.0, rng.randint(-6, 6) / 2.0))
+        pts = sorted(pts); rng.shuffle(pts)
+        return pts
+    A, B = points(), points()
+    while B == A: B = points()
+    from autoarray.inversion.regularization.gaussian_kernel import gauss_cov_matrix_from
+    from autoarray.inversion.regularization.exponential_kernel import exp_cov_matrix_from
+    def profile(gauss, fs):
+        if gauss: return lambda d2: float(np.exp(-1.0 * np.sqrt(d2) ** 2 / (2 * fs ** 2)))
+        return lambda d2: float(np.exp(-1.0 * np.sqrt(d2) / fs))
+    terms, notes, ok = [], {}, True
+    def mapper(pts, dtype=float):
+        return aa.m.MockMapper(source_plane_mesh_grid=np.array(pts, dtype=dtype), parameters=len(pts))
+    def observe(label, reg, gauss, pts, scale, coef, dtype=float):
+        """scheme output H against the covariance the util function gives for these points (inverse contract), that covariance
+        against the model"""
+        fs = float(Fraction(scale))
+        arr = np.array(pts, dtype=float)
+        C = np.asarray((gauss_cov_matrix_from if gauss else exp_cov_matrix_from)(scale=fs, pixel_points=arr), dtype=float)
+        H = np.asarray(reg.regularization_matrix_from(linear_obj=mapper(pts, dtype)), dtype=float)
+        prof = profile(gauss, fs)
+        tbl = {}
+        for (y1, x1) in pts:
+            for (y2, x2) in pts:
+                d2 = (Fraction(x1) - Fraction(x2)) ** 2 + (Fraction(y1) - Fraction(y2)) ** 2
+                tbl[d2] = frac(prof(np.float64(float(d2))))
+        cpts = clist([ctup([cq(frac(y)), cq(frac(x))]) for (y, x) in pts])
+        ctbl = clist([ctup([cq(k), cq(v)]) for k, v in sorted(tbl.items())])
+        terms.append(f"(KCov {cpts} {ctbl} {cqm(mat_out(C))})")
+        terms.append(f"(KKernel {cq(Fraction(coef))} {cqm(mat_out(C))} {cqm(mat_out(H))})")
+        wv = np.asarray(reg.regularization_weights_from(linear_obj=mapper(pts, dtype)), dtype=float)
+        nonlocal ok
+        if not (wv.shape == (len(pts),) and bool(np.all(wv == float(Fraction(coef))))): ok = False; notes[label + ":weights"] = "not coefficient * ones(params)"
+        try: np.linalg.cholesky(H); np.linalg.cholesky(C)
+        except Exception: ok = False; notes[label + ":pd"] = "Cholesky fails"
+        res = float(np.abs(C @ H / float(Fraction(coef)) - np.eye(len(pts))).max()) if H.shape == C.shape else float("inf")
+        if not res <= 1e-6: ok = False; notes[label + ":contract"] = res          # (Coq checks the same contract at 1e-7 |coefficient|)
+        return H
+    g = inp["gauss"]
+    K = lambda gauss: (aa.reg.GaussianKernel if gauss else aa.reg.ExponentialKernel)
+    reg = K(g)(coefficient=float(Fraction(inp["coef"])), scale=float(Fraction(inp["scale"])))
+    h1 = observe("1:A", reg, g, A, inp["scale"], inp["coef"])
+    observe("2:B", reg, g, B, inp["scale"], inp["coef"])                         # the same scheme object, other points of the same count
+    h3 = observe("3:A", reg, g, A, inp["scale"], inp["coef"])
+    if not same(h1, h3): ok = False; notes["again"] = "third call (first points again) differs from the first call"
+    reg.scale = float(Fraction(inp["scale2"]))                                   # (c) edited in place
+    observe("4:A scale edited", reg, g, A, inp["scale2"], inp["coef"])
+    reg.coefficient = float(Fraction(inp["coef2"]))
+    observe("5:B coefficient edited", reg, g, B, inp["scale2"], inp["coef2"])
+    sib = K(not g)(coefficient=float(Fraction(inp["coef"])), scale=float(Fraction(inp["scale"])))     # the sibling kernel right after, same points
+    observe("6:B sibling kernel", sib, not g, B, inp["scale"], inp["coef"])
+    # (f) subclass instance, numpy-typed parameters, integer-typed coordinates: bit-equal to the plain observation
+    plain = np.asarray(K(g)(coefficient=float(Fraction(inp["coef"])), scale=float(Fraction(inp["scale"]))).regularization_matrix_from(linear_obj=mapper(A)), dtype=float)
+    kinds = [("subclass", subcls(K(g))(coefficient=float(Fraction(inp["coef"])), scale=float(Fraction(inp["scale"]))), float),
+             ("numpy.float64 parameters", K(g)(coefficient=np.float64(Fraction(inp["coef"])), scale=np.float64(Fraction(inp["scale"]))), float)]
+    if inp["integral"]: kinds.append(("integer coordinates", K(g)(coefficient=float(Fraction(inp["coef"])), scale=float(Fraction(inp["scale"]))), int))
+    for label, r, dt in kinds:
+        Hk = np.asarray(r.regularization_matrix_from(linear_obj=mapper(A, dt)), dtype=float)
+        if not same(Hk, plain):
+            notes[label] = "differs from the plain observation"
+            if Hk.shape != plain.shape or np.abs(Hk - plain).max() > 1e-9 * max(1.0, np.abs(plain).max()): ok = False
+    return {"coq": terms[0], "extra_coq": terms[1:], "py_ok": ok, "out": {"A": A, "B": B, "notes": notes},
+            "kind": "kreuse:" + ("gauss" if g else "exp"), "nontrivial": len(A) >= 3, "detail": notes}
+
+# ---------------------------------------------------------------------- sibling mesh: Voronoi
+def run_voronoi(aa, inp):
+    import random
+    rng = random.Random(inp["seed"])
+    pts = set()
+    while len(pts) < inp["npts"]: pts.add((rng.randint(-8, 8) / 4.0, rng.randint(-8, 8) / 4.0))
+    pts = sorted(pts); rng.shuffle(pts)
+    s = inp["scheme"]
+    try:
+        mesh = aa.Mesh2DVoronoi(values=aa.Grid2DIrregular(pts)); mesh.voronoi
+    except Exception as e:
+        return {"coq": None, "out": "degenerate point set: " + type(e).__name__, "py_ok": None, "kind": "voronoi:skipped", "nontrivial": False}
+    mask = aa.Mask2D.all_false(shape_native=(3, 3), pixel_scales=1.0)
+    grid = aa.Grid2D.from_mask(mask=mask)
+    mg = aa.MapperGrids(mask=mask, source_plane_data_grid=grid, source_plane_mesh_grid=mesh)
+    mapper = aa.Mapper(mapper_grids=mg, over_sampler=aa.OverSamplerUniform(mask=mask, sub_size=1), border_relocator=None, regularization=None)
+    nb = mesh.neighbors
+    o = {"params": int(mapper.params), "nb": [[int(x) for x in r] for r in np.asarray(nb)], "sizes": [int(x) for x in np.asarray(nb.sizes)],
+         "signals": [], "smap": [], "ssizes": [], "sw": []}
+    reg, out_m, w, terms = scheme_cases(aa, s, o, mapper, "voronoi")
+    # the table is the set of ridges of the Voronoi diagram (both directions, once each)
+    E = set()
+    for a, b in np.asarray(mesh.voronoi.ridge_points):
+        E.add((int(a), int(b))); E.add((int(b), int(a)))
+    T = [(i, k) for i, (r, z) in enumerate(zip(o["nb"], o["sizes"])) for k in r[:z]]
+    ok = isinstance(mapper, aa.MapperVoronoi) and len(T) == len(set(T)) and set(T) == E and wf_of(s, o)
+    pd = pd_observed(out_m, s["name"], True)
+    if pd is False: ok = False
+    mapper.regularization = reg
+    out_l = call(lambda: mapper.regularization_matrix)
+    if out_l != out_m: terms.append(f"(KMatrix {cscheme(s)} {clobj(fo(o))} {cres_m(out_l)})")
+    return {"coq": terms[0], "extra_coq": terms[1:], "py_ok": bool(ok), "out": {"points": pts, "neighbors": o["nb"], "sizes": o["sizes"], "matrix": summary(out_m)},
+            "kind": "voronoi:" + s["name"], "nontrivial": True}
